@@ -116,6 +116,21 @@ func (s *Slicer) Origins(v ssa.Value) []ssa.Value {
 						visit(st.Val, resIdx, depth)
 						n++
 					}
+					if n == 0 && s.ThroughFieldsOfAllocs {
+						// a struct built field by field (composite literal) and used whole: what its fields were given
+						for _, u := range usesOf(a) {
+							fa2, ok := u.(*ssa.FieldAddr)
+							if !ok {
+								continue
+							}
+							for _, uu := range usesOf(fa2) {
+								if st, ok := uu.(*ssa.Store); ok && st.Addr == ssa.Value(fa2) {
+									visit(st.Val, resIdx, depth)
+									n++
+								}
+							}
+						}
+					}
 					if n == 0 {
 						addTerm(v)
 					}
